@@ -539,6 +539,8 @@ def gen_model_facts(rng, sig, th):
             create.append(["new", MOR, lab])
         labels[MOR].append(lab)
         a, b = sorted(rng.sample(range(nobj), 2))  # dom index < cod index: acyclic by construction
+        if i == 0 and rng.random() < 0.5:
+            a, b = 0, 1  # between the models that constants (and rules about them) name
         r = rng.random()
         if r < 0.8:
             morph.append(["ins", DOM, lab, labels[MODEL][a]])
